@@ -263,7 +263,7 @@ fn offer_flow(t: &mut Tracer, g: &GenHead, p: usize, api: &str) {
 
 pub fn c05(o: &Opts, t: &mut Tracer) -> Value {
     let mut rng = rng_for(o.seed, 0xC05);
-    let nheads = if o.quick() { 150 } else { 4000 };
+    let nheads = if o.quick() { 150 } else { 8000 };
     let mut offers = 0u64;
     for i in 0..nheads {
         let status: u16 = match i % 6 {
@@ -348,7 +348,7 @@ macro_rules! with_n {
 
 pub fn c20(o: &Opts, t: &mut Tracer) -> Value {
     let mut rng = rng_for(o.seed, 0xC20);
-    let rounds = if o.quick() { 6 } else { 160 };
+    let rounds = if o.quick() { 6 } else { 400 };
     let mut calls = 0u64;
     for round in 0..rounds {
         for &limit in &[0usize, 1, 4, 128] {
